@@ -28,7 +28,7 @@ ASSUMPTIONS = [
     "kill injection: strace -f -e inject=<write,pwrite64,writev,rename,renameat,renameat2>:signal=SIGKILL:when=K (ptrace); evidence names the injector used",
 ]
 MIN_NONTRIVIAL = {"quick": 400, "thorough": 4000}
-TIMEOUT = {"quick": 1500, "thorough": 3400}
+TIMEOUT = {"quick": 1500, "thorough": 7000}
 NKILL = 8
 
 
